@@ -120,9 +120,14 @@ def gen_jobspec(rng, max_tasks=16, shape=None, multi_edges=False, gpu=True, big_
                     if rng.random() < 0.6:
                         tasks[t]["static_ps"][str(pos)] = rng.choice(STATIC_VALUES)
                     pos += 1  # gap or static
+                if rng.random() < 0.3:
+                    tasks[t]["static_ps"][str(pos)] = None  # the placeholder graph2job writes at an upstream position
                 edges.append((p, o, t, None, pos))
                 pos += 1
             else:
+                if rng.random() < 0.35:
+                    # a signature default copied into static_input_kw (TaskBuilder.from_callable does that): the upstream value must win
+                    tasks[t]["static_kw"][f"k{kwi}"] = rng.choice(STATIC_VALUES)
                 edges.append((p, o, t, f"k{kwi}", None))
                 kwi += 1
         while rng.random() < 0.3:
